@@ -388,15 +388,17 @@ static void fam_c02_pingpong(G& g, Plan& p) {
 // threads free blocks in exactly those pages: a block must end up on exactly one list of exactly one owner
 static void fam_c02_forceabandon(G& g, Plan& p) {
   int nt = 2 + (int)g.below(3);
-  const bool mid = g.chance(0.6);
+  const int shape = (int)g.below(10);       // 0-4: medium pages (few blocks each), 5-6: small pages, 7-9: one large block per page, one or two pages per segment
+  const bool mid = shape < 5; const bool big = shape >= 7;
   size_t req; size_t per_page;
-  if (mid) { req = g.pick<size_t>({40000, 100000, 200000, 200000}) + g.below(5000); per_page = (512 * KiB) / (req + 64); if (per_page < 1) per_page = 1; }
+  if (big) { req = (size_t)(9 + g.below(7)) * MiB + g.below(MiB); per_page = 1; }
+  else if (mid) { req = g.pick<size_t>({40000, 100000, 200000, 200000}) + g.below(5000); per_page = (512 * KiB) / (req + 64); if (per_page < 1) per_page = 1; }
   else { auto bs = bin_sizes(); size_t b = bs[24 + g.below(20)]; req = (g.padded && b > 8) ? b - 8 : b; per_page = (64 * KiB) / b; }
-  int n = (int)(per_page * (3 + g.below(12))); if (n > 400) n = 400; if (n < 12) n = 12;
+  int n = big ? 4 + (int)g.below(8) : (int)(per_page * (3 + g.below(12))); if (n > 400) n = 400; if (n < 12 && !big) n = 12;
   p.nslots = n + 40; p.progs.resize((size_t)nt);
-  if (g.chance(0.3)) set_env(p, "TARGET_SEGMENTS_PER_THREAD", g.pick({1, 2, 3}));
+  if (g.chance(big ? 0.6 : 0.3)) set_env(p, "TARGET_SEGMENTS_PER_THREAD", g.pick({1, 2, 3}));
   if (g.chance(0.3)) set_env(p, "ABANDONED_RECLAIM_ON_FREE", g.pick({0, 1}));
-  if (g.chance(0.2)) set_env(p, "DISALLOW_ARENA_ALLOC", 1);
+  if (g.chance(big ? 0.4 : 0.2)) set_env(p, "DISALLOW_ARENA_ALLOC", 1);
   if (g.chance(0.75)) {
     p.cfg.strategy = ST_TARGETED; p.cfg.hot_p = g.pick({0.3, 0.7}); p.cfg.switch_p = g.pick({0.0, 0.002});
     p.cfg.hot_funcs = {"_mi_page_force_abandon", "mi_segment_force_abandon", "_mi_heap_delayed_free_all", "_mi_heap_delayed_free_partial", "mi_free_block_delayed_mt",
@@ -410,7 +412,7 @@ static void fam_c02_forceabandon(G& g, Plan& p) {
     int k = (int)g.below(10);
     if (k < 4) P0.ops.push_back(mk(OP_collect_reduce, -1, g.pick<uint64_t>({0, 1, 32 * MiB, 64 * MiB})));
     else if (k < 7) P0.ops.push_back(mk(OP_malloc, (int)g.below((uint64_t)p.nslots), req - g.below(16)));
-    else if (k < 8) P0.ops.push_back(mk(OP_malloc, n + (int)g.below(40), 3 * MiB + g.below(8 * MiB)));     // asks for a fresh segment (try_abandon with a target)
+    else if (k < 8) P0.ops.push_back(mk(OP_malloc, n + (int)g.below(40), (big ? 9 : 3) * MiB + g.below(8 * MiB)));     // asks for a fresh segment (try_abandon with a target)
     else if (k < 9) P0.ops.push_back(mk(OP_free, (int)g.below((uint64_t)p.nslots)));
     else P0.ops.push_back(mk(OP_check_owner, (int)g.below((uint64_t)n)));
   }
@@ -1402,8 +1404,8 @@ static void fam_c07_threadstart(G& g, Plan& p) {
 }
 
 static void fam_c07_base(G& g, Plan& p) {
-  int variant = (int)(p.seed % 10);
-  const bool lazy_exit = (variant == 5 && ((p.seed / 10) % 2) == 1);   // thread exit + lazily committed memory: reclaimed spans need a commit
+  int variant = (int)(p.seed % 20); if (variant >= 12) variant -= 10;      // 0..9 as before, 10: huge churn, 11: huge churn on lazily committed arenas
+  const bool lazy_exit = (variant == 5 && ((p.seed / 20) % 2) == 1);   // thread exit + lazily committed memory: reclaimed spans need a commit
   p.cfg.strategy = ST_NONE; p.cfg.harness_p = 0; p.cfg.spurious_p = 0; p.cfg.tick_ns = 0;
   p.cfg.place_policy = 0; p.cfg.madv_free_mode = 1; p.cfg.overcommit = 0; p.cfg.thp_einval = 0; p.cfg.entropy_fail = 0;
   p.env.clear();
@@ -1416,6 +1418,21 @@ static void fam_c07_base(G& g, Plan& p) {
   if (variant == 8) set_env(p, "ARENA_EAGER_COMMIT", 0);
   if (variant == 9) set_env(p, "EAGER_COMMIT", 0);
   if (g.chance(0.3)) set_env(p, "PURGE_DELAY", 0);
+  if (variant == 11) set_env(p, "ARENA_EAGER_COMMIT", 0);
+  if (variant >= 10) {
+    // huge churn: segment-sized blocks are allocated, freed and allocated again in the same arena memory, so that whatever an OS
+    // refusal leaves behind when a segment is set up or torn down is met by the next one
+    int n = 6 + (int)g.below(10);
+    for (int i = 0; i < n; i++) {
+      int slot = (int)g.below(4); int k = (int)g.below(10);
+      if (k < 4) P0.ops.push_back(mk(OP_free, slot));
+      else if (k < 5) P0.ops.push_back(mk(OP_realloc, slot, 17 * MiB + g.below(80 * MiB)));
+      else P0.ops.push_back(mk(g.chance(0.2) ? OP_zalloc : OP_malloc, slot, g.chance(0.8) ? 17 * MiB + g.below(80 * MiB) : 1 * MiB + g.below(15 * MiB)));
+      if (g.chance(0.15)) P0.ops.push_back(mk(OP_collect, -1, g.below(2)));
+    }
+    c07_tail(g, p, P0);
+    return;
+  }
   int n = 30 + (int)g.below(70);
   for (int i = 0; i < n; i++) {
     int slot = (int)g.below(100); int k = (int)g.below(100);
